@@ -24,5 +24,30 @@ PROPS = {
     ),
 }
 
+PROPS["C06"] = dict(
+    pkg="c06",
+    subs=[
+        dict(name="small", test="TestSmall", quick=1, thorough=1),
+        dict(name="arith", test="TestArith", quick=20000, thorough=600000, shards=8),
+        dict(name="cmp", test="TestCmp", quick=10000, thorough=300000, shards=4),
+        dict(name="divmod", test="TestDivMod", quick=10000, thorough=300000, shards=4),
+        dict(name="literal", test="TestLiteral", quick=10000, thorough=300000, shards=4),
+        dict(name="builtin", test="TestBuiltin", quick=10000, thorough=300000, shards=4),
+    ],
+    technique="rapid random generation + exhaustive boundary set against a math/big reference model (exact rationals, own literal-grammar evaluator)",
+    level_text="exploration: every operator on every pair of a 57-value boundary set (2^63, 2^64, 10^34 +-1, halves, tiny/huge exponents) exhaustively; random operands up to 60 digits and exponents +-600; literal spellings drawn from the full spec grammar. The oracle is exact rational arithmetic, so any wrong digit, kind or rounding is visible.",
+    level_note="trusted: math/big; the evaluator's own number printing is used to read results back (and is itself checked by the literal round-trip sub-check); integer results beyond 34 digits are excluded by construction (known finding F8)",
+    rule="arith: a op b for op in + - * /, operands from a generator mixing boundary constants, ints to 40 digits, decimals to 60 digits, exponents to +-600; "
+         "result must be exact (ints always; floats when representable in 34 digits, else the exact result correctly rounded to 34 digits), kind int iff both operands int and op != /. "
+         "cmp: six comparison operators against big.Rat.Cmp (same value in other kind/spelling, last-place neighbours), strings and bytes bytewise. "
+         "divmod: div/mod/quo/rem against big.Int DivMod/QuoRem plus the identities, zero divisor must error. "
+         "literal: spelling drawn from the spec grammar (decimal, hex, octal, binary with underscores, SI/IEC multipliers with fractions, float forms) vs own value computation, then String/JSON/Syntax/Append read-back. "
+         "builtin: math.Floor/Ceil/Trunc/Round/Abs/MultipleOf/Pow against exact models. "
+         "Non-trivial: result needs >15 digits or operands differ in kind or sign (arith/cmp), negative operand or long operand (divmod), base prefix/multiplier/underscore/exponent (literal), fractional or negative argument (builtin).",
+    assumptions=["correct rounding accepts either tie-breaking rule (|got-exact| <= half a unit of the 34th digit)",
+                 "math.Pow is only required to be within 2 units of the 34th digit",
+                 "known finding F8 (integer results/operands beyond 34 digits are rounded) is excluded from generation and replayed as witness"],
+)
+
 NOT_APPLICABLE = {}
 HOOK_COMMITS = []
